@@ -1837,3 +1837,99 @@ impl Actions {
         self.send.clear_queues(store, counts);
     }
 }
+
+// ===== verification hooks (feature `verif`) =====
+
+/// Read-only snapshot of the per-connection stream bookkeeping.
+#[cfg(feature = "verif")]
+#[derive(Debug, Clone, Default, PartialEq, Eq)]
+pub struct VerifStats {
+    pub store_slab_len: usize,
+    pub store_ids_len: usize,
+    pub recv_buffer_len: usize,
+    pub send_buffer_len: usize,
+    pub num_send_streams: usize,
+    pub num_recv_streams: usize,
+    pub num_local_reset_streams: usize,
+    pub num_remote_reset_streams: usize,
+    pub refs: usize,
+    pub recv_window: i32,
+    pub recv_available: i32,
+    pub recv_in_flight: u32,
+    pub send_window: i32,
+    pub send_available: i32,
+}
+
+/// Shares the stream state without counting as a handle (`Inner.refs` is not
+/// touched), so it can be sampled from outside the connection task.
+#[cfg(feature = "verif")]
+pub struct VerifProbe {
+    inner: Arc<Mutex<Inner>>,
+    send_len: Box<dyn Fn() -> Option<usize>>,
+}
+
+#[cfg(feature = "verif")]
+impl fmt::Debug for VerifProbe {
+    fn fmt(&self, fmt: &mut fmt::Formatter) -> fmt::Result {
+        fmt.debug_struct("VerifProbe").finish()
+    }
+}
+
+#[cfg(feature = "verif")]
+impl VerifProbe {
+    /// `None` if a lock is currently held (or poisoned); never blocks.
+    pub fn stats(&self) -> Option<VerifStats> {
+        let send_buffer_len = (self.send_len)()?;
+        let me = self.inner.try_lock().ok()?;
+        let (recv_window, recv_available, recv_in_flight, recv_buffer_len) =
+            me.actions.recv.verif_stats();
+        let (send_window, send_available) = me.actions.send.verif_stats();
+        let (num_send_streams, num_recv_streams, num_local_reset_streams, num_remote_reset_streams) =
+            me.counts.verif_stats();
+        let (store_slab_len, store_ids_len) = me.store.verif_stats();
+        Some(VerifStats {
+            store_slab_len,
+            store_ids_len,
+            recv_buffer_len,
+            send_buffer_len,
+            num_send_streams,
+            num_recv_streams,
+            num_local_reset_streams,
+            num_remote_reset_streams,
+            refs: me.refs,
+            recv_window,
+            recv_available,
+            recv_in_flight,
+            send_window,
+            send_available,
+        })
+    }
+
+    /// True if neither internal lock is held right now.
+    pub fn locks_free(&self) -> bool {
+        (self.send_len)().is_some() && self.inner.try_lock().is_ok()
+    }
+
+    /// True if an internal lock has been poisoned by a panic.
+    pub fn is_poisoned(&self) -> bool {
+        matches!(
+            self.inner.try_lock(),
+            Err(std::sync::TryLockError::Poisoned(_))
+        )
+    }
+}
+
+#[cfg(feature = "verif")]
+impl<B, P> Streams<B, P>
+where
+    B: 'static,
+    P: Peer,
+{
+    pub(crate) fn verif_probe(&self) -> VerifProbe {
+        let send_buffer = self.send_buffer.clone();
+        VerifProbe {
+            inner: self.inner.clone(),
+            send_len: Box::new(move || send_buffer.inner.try_lock().ok().map(|b| b.verif_len())),
+        }
+    }
+}
